@@ -1,3 +1,81 @@
-From Verif Require Import lib.Arith model.Temporal.
-Theorem C13_stub : True. Proof. exact I. Qed.
-Print Assumptions C13_stub.
+(* C13  Change and cumulation transforms follow their formulas, invert each other.
+   Only restatements: every proof is `exact <lemma of proofs/TemporalProofs.v>`.
+   The definitions change_*, conv_*, cum_*_forward/backward come from
+   gen/TemporalGen.v, regenerated from series/_temporal.py on every run. *)
+From Coq Require Import ZArith List Reals.
+From Verif Require Import lib.Arith lib.PyRange lib.Period model.Series gen.TemporalGen model.Temporal
+     proofs.SeriesProofs proofs.TemporalProofs.
+Import ListNotations.
+Notation RA := RArith.
+
+(* 1. documented formulas, period by period (x = current value, y = reference value, f = annualisation factor) *)
+Theorem C13_formulas : forall f x y : R,
+  change_diff RA f x y = (x - y)%R /\
+  change_adiff RA f x y = (f * (x - y))%R /\
+  change_diff_log RA f x y = (Rpower.ln x - Rpower.ln y)%R /\
+  change_adiff_log RA f x y = (f * (Rpower.ln x - Rpower.ln y))%R /\
+  change_roc RA f x y = (x / y)%R /\
+  change_aroc RA f x y = Rpower (x / y) f /\
+  change_pct RA f x y = (100 * (x / y - 1))%R /\
+  change_apct RA f x y = (100 * (Rpower (x / y) f - 1))%R.
+Proof. exact formulas_all. Qed.
+Print Assumptions C13_formulas.
+
+Theorem C13_shifts_and_factor :
+  change_diff_default_shift = Some (-1)%Z /\ change_diff_log_default_shift = Some (-1)%Z /\
+  change_roc_default_shift = Some (-1)%Z /\ change_pct_default_shift = Some (-1)%Z /\
+  change_adiff_fixed_shift = Some (-1)%Z /\ change_adiff_log_fixed_shift = Some (-1)%Z /\
+  change_aroc_fixed_shift = Some (-1)%Z /\ change_apct_fixed_shift = Some (-1)%Z /\
+  change_adiff_uses_factor = true /\ change_adiff_log_uses_factor = true /\
+  change_aroc_uses_factor = true /\ change_apct_uses_factor = true /\
+  change_diff_uses_factor = false /\ change_diff_log_uses_factor = false /\
+  change_roc_uses_factor = false /\ change_pct_uses_factor = false.
+Proof. exact shifts_as_documented. Qed.
+Print Assumptions C13_shifts_and_factor.
+
+(* only negative integer shifts are accepted *)
+Theorem C13_invalid_shift_rejected : forall k : Z, invalid_int_shift k = true <-> (0 <= k)%Z.
+Proof. exact invalid_shift_iff. Qed.
+Print Assumptions C13_invalid_shift_rejected.
+
+(* 2. the rate helpers are consistent with the change functions *)
+Theorem C13_rate_helpers_consistent : forall f g x y : R, (0 < x / y)%R -> f <> 0%R -> y <> 0%R ->
+  conv_roc_from_pct RA g (change_pct RA f x y) = change_roc RA f x y /\
+  conv_pct_from_roc RA g (change_roc RA f x y) = change_pct RA f x y /\
+  conv_pct_from_apct RA f (change_apct RA f x y) = change_pct RA f x y /\
+  conv_roc_from_apct RA f (change_apct RA f x y) = change_roc RA f x y /\
+  conv_roc_from_aroc RA f (change_aroc RA f x y) = change_roc RA f x y.
+Proof. exact rate_helpers_all. Qed.
+Print Assumptions C13_rate_helpers_consistent.
+
+(* 3. cumulating a change series forward, with the original series as initial condition, reproduces
+      the original series, for diff / diff_log / pct / roc at every negative shift -k *)
+Theorem C13_cum_forward_inverts : forall ck (x c r : series RA) st k,
+  let en := (st + Z.of_nat (length (s_data x)) - 1)%Z in
+  WF RA x -> s_start x = Some st -> (0 < k <= en - st)%Z ->
+  cells_in RA (dom_of ck) x st en ->
+  change RA (chg_of ck) (ByInt (- k)) x = Ok c ->
+  temporal_cumulation RA ck (ByInt (- k)) (InitSeries RA x) (SpanFromTo (st + k) en 1) c = Ok r ->
+  forall t, (st <= t <= en)%Z -> row_at RA r t = row_at RA x t.
+Proof. exact cum_forward_inverts. Qed.
+Print Assumptions C13_cum_forward_inverts.
+
+(* ... and backward, over any backward span a, a-1, ..., b inside the data *)
+Theorem C13_cum_backward_inverts : forall ck (x c r : series RA) st k a b,
+  let en := (st + Z.of_nat (length (s_data x)) - 1)%Z in
+  WF RA x -> s_start x = Some st -> (0 < k)%Z -> (st <= b <= a)%Z -> (a + k <= en)%Z ->
+  cells_in RA (dom_of ck) x st en ->
+  change RA (chg_of ck) (ByInt (- k)) x = Ok c ->
+  temporal_cumulation RA ck (ByInt (- k)) (InitSeries RA x) (SpanFromTo a b (-1)) c = Ok r ->
+  forall t, (b <= t <= a + k)%Z -> row_at RA r t = row_at RA x t.
+Proof. exact cum_backward_inverts. Qed.
+Print Assumptions C13_cum_backward_inverts.
+
+(* non-vacuity: a concrete quarterly series meets the hypotheses (shift -2) *)
+Example C13_hypotheses_satisfiable :
+  let x := mkSeries (A:=RA) 4 (Some 8000%Z) 1 [[1%R]; [2%R]; [4%R]; [8%R]; [16%R]] in
+  WF RA x /\ s_start x = Some 8000%Z /\ (0 < 2 <= (8000 + 5 - 1) - 8000)%Z /\
+  cells_in RA (dom_of CumRoc) x 8000 8004 /\
+  exists c r, change RA KRoc (ByInt (-2)) x = Ok c /\
+              temporal_cumulation RA CumRoc (ByInt (-2)) (InitSeries RA x) (SpanFromTo 8002 8004 1) c = Ok r.
+Proof. exact hypotheses_satisfiable. Qed.
